@@ -1,0 +1,72 @@
+//go:build verif
+
+// Contracts of the upstream server (rebalancing, session table) for the
+// deductive verifier in /verif (vcgo). Comment-only.
+
+package upstream
+
+// ---------------------------------------------------------------------------
+// Rebalancing (C19)
+
+// What one Rebalance step observed and did (ghost): the number of known nodes,
+// the local and the average connection count, and the argument of the one
+// shedSessions call it may make.
+//@ ghost gNodes int
+//@ ghost gLocal int
+//@ ghost gAvg int
+//@ ghost shedCalled bool
+//@ ghost shedArg int
+
+//@ nonnil Server.cluster Server.upstreams
+//@ immutable Server.cluster Server.config Server.upstreams Server.ctx Server.cancel Server.websocketUpgrader Server.httpServer
+//@ monitor Server.sessionsMu level 50 self s guards Server.sessions inv s.sessions != nil
+
+// balance = (local - avg) / avg and the number of sessions to shed, as the code computes them.
+//@ pure rbBalance(l int, a int) float64 = i2f(l - a) / i2f(a)
+//@ pure rbShed(l int, a int, rate float64) float64 = (i2f(l) * rbBalance(l, a) > i2f(a) * rate) ? ceil(i2f(a) * rate) : (i2f(l) * rbBalance(l, a))
+
+//@ contract (*Server).openSessions
+//@   serves C19 C16 C20
+//@   ghost-set gLocal = result
+//@   ensures[count] result == len(s.sessions)
+//@   ensures[env-bound] 0 <= result && result <= 4294967296
+
+//@ contract (*Server).shedSessions
+//@   serves C19 C16 C20
+//@   ghost-set shedCalled = true
+//@   ghost-set shedArg = n
+//@   loop 1 frame nothing
+//@   loop 1 invariant[fresh] arr(shedding) == 0 || (fresh(shedding) && loopfresh(shedding))
+//@   loop 1 invariant[below] len(shedding) == 0 || len(shedding) < n
+//@   loop 1 invariant[tracked] forall j int :: 0 <= j && j < len(shedding) ==> shedding[j] in seen && shedding[j] in s.sessions
+//@   loop 1 invariant[distinct] forall i int, j int :: 0 <= i && i < j && j < len(shedding) ==> shedding[i] != shedding[j]
+//@   loop 1 invariant[locked] held(Server.sessionsMu)
+//@   loop 1 ensures[count] len(shedding) <= (n > 1 ? n : 1)
+//@   loop 1 ensures[tracked] forall j int :: 0 <= j && j < len(shedding) ==> shedding[j] in s.sessions
+//@   loop 1 ensures[distinct] forall i int, j int :: 0 <= i && i < j && j < len(shedding) ==> shedding[i] != shedding[j]
+//@   loop 2 invariant[unlocked] !held(Server.sessionsMu)
+
+//@ contract (*Server).Rebalance
+//@   serves C19
+//@   let minConns = s.config.Rebalance.MinConns
+//@   let threshold = s.config.Rebalance.Threshold
+//@   let rate = s.config.Rebalance.ShedRate
+//@   ensures[guards] !old(shedCalled) && shedCalled ==> gNodes > 1 && gLocal != 0 && gLocal >= minConns && !(rbBalance(gLocal, gAvg) < threshold)
+//@   ensures[shed-arg] !old(shedCalled) && shedCalled ==> shedArg == f2i(rbShed(gLocal, gAvg, rate))
+
+// Bit-exact IEEE-754 / int64 facts about the quantities above (mode bv: all
+// 64-bit inputs within the stated ranges).
+//@ lemma rbAboveAverage(l int64, a int64, th float64)
+//@   serves C19
+//@   mode bv
+//@   requires[range] 1 <= l && l <= 4294967296 && 0 <= a && a <= 4294967296
+//@   requires[enabled] th > 0.0 && !(rbBalance(l, a) < th)
+//@   ensures[above] l > a
+//@ lemma rbCap(l int64, a int64, th float64, rate float64)
+//@   serves C19
+//@   mode bv
+//@   requires[range] 1 <= l && l <= 4294967296 && 0 <= a && a <= 4294967296
+//@   requires[config] th >= 0.0 && 0.0 <= rate && rate <= 1.0 && !(rbBalance(l, a) < th)
+//@   ensures[cap] f2i(rbShed(l, a, rate)) <= f2i(ceil(i2f(a) * rate))
+//@   ensures[not-nan] !isNaN(rbShed(l, a, rate))
+//@   ensures[nonneg] f2i(rbShed(l, a, rate)) >= 0
